@@ -578,11 +578,9 @@ def mut_after_limit(repo: Repo) -> List[Mutant]:
 
 
 RULES = {
-    "MOMENTS": Rule("F-moments", rule_moments, 10, "raw-moment code of each family is the textbook closed form / the sympy.stats variable with the family's parameter convention, at order k", mut_moments),
-    "MGFDOMAIN": Rule("F-mgf-domain", rule_mgf_domain, 9, "mgf_exists_at encodes the family's domain of the mgf (strict inequality; undecided => does not exist)", mut_mgf_domain),
-    "INDICATOR": Rule("F-indicator", rule_indicator, 6, "Atom.to_arithm is the Lagrange indicator over the finite type; power reduction cases and Vandermonde interpolation", mut_indicator),
-    "RECBUILDER": Rule("F-rec-builder", rule_rec_builder, 9, "backward substitution order, term decomposition, initial-value convention, worklist closure and matrix assembly of the recurrence builder", mut_rec_builder),
-    "SOLVERSHAPE": Rule("F-solver-shape", rule_solver_shape, 11, "offsets and special cases of the summation solver and the characteristic-root solver; dispatch; printing/evaluation helpers", mut_solver_shape),
-    "QUERIES": Rule("F-queries", rule_queries, 9, "program fragments and result formulas of the exact-inference and sampling-time queries", mut_queries),
-    "AFTERLIMIT": Rule("F-after-limit", rule_after_limit, 2, "after-loop value is the limit of the default branch", mut_after_limit),
+    "MOMENTS": Rule("F-moments", rule_moments, 10, "raw-moment code of each family is the textbook closed form / the sympy.stats variable with the family's parameter convention, at order k", mut_moments, soft=True),
+    "MGFDOMAIN": Rule("F-mgf-domain", rule_mgf_domain, 9, "mgf_exists_at encodes the family's domain of the mgf (strict inequality; undecided => does not exist)", mut_mgf_domain, soft=True),
+    "INDICATOR": Rule("F-indicator", rule_indicator, 4, "Atom.to_arithm is the Lagrange indicator over the finite type; power reduction cases", mut_indicator, soft=True),
 }
+# rule_rec_builder / rule_solver_shape / rule_queries / rule_after_limit compare frozen source fragments: they cannot tell a
+# behaviour-preserving rewrite from a defect and are therefore NOT registered (kept for reference only).
